@@ -474,9 +474,250 @@ Definition spec_client_fail (ds : list directive) (q : request) (pre : hdr) (b :
                   else existsb (oval_eqb (hlookup (w_hdr v) k)) (spec_resp_values c q pre b k))) keys ++
   when_not (hdr_eqb_ne (w_trailers v) (b_trailers b)) (tag "<trailers>"%string).
 
+
+(* ================= response relay: copy loop, ResponseWriter, trailers ================= *)
+(* ---- copyResponse -> pooledIoCopy -> io.CopyBuffer(dst, src, buf):
+        for { nr, er := src.Read(buf); if nr > 0 { dst.Write(buf[0:nr]) }; if er != nil { break } }
+   The reader is arbitrary: remaining data, a script of per-call caps (the i-th Read returns at most
+   that many bytes; a cap of 0 is a Read that returns (0, nil); script used up = as much as fits the
+   buffer), and whether the last bytes come together with io.EOF or EOF needs a Read of its own. ---- *)
+Record breader := { r_data : bytes; r_script : list nat; r_eofd : bool }.
+Definition r_read (r : breader) (m : nat) : bytes * bool * breader :=
+  match r_data r with
+  | [] => ([], true, r)
+  | _ =>
+      let cap := match r_script r with [] => m | k :: _ => Nat.min k m end in
+      let rest := skipn cap (r_data r) in
+      (firstn cap (r_data r),
+       match rest with [] => r_eofd r | _ => false end,
+       {| r_data := rest; r_script := tl (r_script r); r_eofd := r_eofd r |})
+  end.
+(* the Write calls the loop makes, in order *)
+Fixpoint copy_loop (fuel bufsz : nat) (r : breader) : list bytes :=
+  match fuel with
+  | O => []
+  | S f =>
+      let '(d, eof, r') := r_read r bufsz in
+      let ws := match d with [] => [] | _ => [d] end in
+      if eof then ws else ws ++ copy_loop f bufsz r'
+  end.
+Definition copy_writes (bufsz : nat) (r : breader) : list bytes :=
+  copy_loop (S (length (r_script r) + length (r_data r))) bufsz r.
+Definition POOL_BUF : nat := 32768. (* createBuffer: make([]byte, 0, 32*1024), used at full capacity *)
+
+(* ---- the http.ResponseWriter of net/http's HTTP/1.1 server, as far as framing, body bytes and
+   trailers go (stdlib model, re-validated by the wire cases): a 2048-byte bufio.Writer in front of
+   the chunkWriter; the header is committed (cw.writeHeader) by the first flush of that buffer -
+   Flush(), overflow, or the end of the handler; only in the last case, and only when no trailer is
+   declared, a Content-Length is computed; otherwise the response is chunked; trailers are written
+   after a chunked body only (finalTrailers). ---- *)
+Inductive rwop := OSetKey (k : bytes) (vv : list bytes) | OWriteHeader (st : N) | OWrite (p : bytes) | OFlush.
+Record rwst := { rs_live : hdr; rs_status : option N; rs_snap : hdr; rs_pending : bytes; rs_committed : bool;
+                 rs_chunking : bool; rs_cl : option nat; rs_declared : list bytes; rs_out : bytes }.
+Definition BUFIO : nat := 2048.
+Definition K_CL := bs "Content-Length"%string.
+Definition has_key (h : hdr) (k : bytes) : bool := match hlookup h k with Some _ => true | None => false end.
+(* foreachHeaderElement over the Trailer header + CanonicalHeaderKey (declareTrailer) *)
+Definition declared_of (snap : hdr) : list bytes := map canon_key (flat_map conn_tokens (olist (hlookup snap K_TRAILER))).
+Definition declares_trailers (snap : hdr) : bool :=
+  has_key snap K_TRAILER || existsb (fun kv => has_prefix (fst kv) TRAILER_PREFIX) snap.
+Definition chunking_of (body_ok done : bool) (snap : hdr) : bool :=
+  body_ok && negb (has_key snap K_CL) && negb (done && negb (declares_trailers snap)).
+Definition rw_init (h : hdr) : rwst :=
+  {| rs_live := h; rs_status := None; rs_snap := []; rs_pending := []; rs_committed := false;
+     rs_chunking := false; rs_cl := None; rs_declared := []; rs_out := [] |}.
+Definition set_live (s : rwst) (l : hdr) : rwst :=
+  {| rs_live := l; rs_status := rs_status s; rs_snap := rs_snap s; rs_pending := rs_pending s; rs_committed := rs_committed s;
+     rs_chunking := rs_chunking s; rs_cl := rs_cl s; rs_declared := rs_declared s; rs_out := rs_out s |}.
+Definition write_header (s : rwst) (st : N) : rwst :=
+  match rs_status s with
+  | Some _ => s
+  | None => {| rs_live := rs_live s; rs_status := Some st; rs_snap := rs_live s; rs_pending := rs_pending s; rs_committed := rs_committed s;
+               rs_chunking := rs_chunking s; rs_cl := rs_cl s; rs_declared := rs_declared s; rs_out := rs_out s |}
+  end.
+(* cw.writeHeader; [done] = the handler has returned, [plen] = bytes in the buffer at that moment *)
+Definition commit (body_ok done : bool) (s : rwst) : rwst :=
+  if rs_committed s then s else
+  let ch := chunking_of body_ok done (rs_snap s) in
+  {| rs_live := rs_live s; rs_status := rs_status s; rs_snap := rs_snap s; rs_pending := rs_pending s; rs_committed := true;
+     rs_chunking := ch;
+     rs_cl := if done && negb (declares_trailers (rs_snap s)) && body_ok && negb (has_key (rs_snap s) K_CL)
+              then Some (length (rs_pending s)) else None;
+     rs_declared := declared_of (rs_snap s); rs_out := rs_out s |}.
+(* the buffer is handed to the connection (a response that may not have a body discards it) *)
+Definition drain (body_ok : bool) (s : rwst) : rwst :=
+  {| rs_live := rs_live s; rs_status := rs_status s; rs_snap := rs_snap s; rs_pending := []; rs_committed := rs_committed s;
+     rs_chunking := rs_chunking s; rs_cl := rs_cl s; rs_declared := rs_declared s;
+     rs_out := if body_ok then rs_out s ++ rs_pending s else rs_out s |}.
+Definition buffer (s : rwst) (p : bytes) : rwst :=
+  {| rs_live := rs_live s; rs_status := rs_status s; rs_snap := rs_snap s; rs_pending := rs_pending s ++ p; rs_committed := rs_committed s;
+     rs_chunking := rs_chunking s; rs_cl := rs_cl s; rs_declared := rs_declared s; rs_out := rs_out s |}.
+Definition rw_step (body_ok : bool) (s : rwst) (o : rwop) : rwst :=
+  match o with
+  | OSetKey k vv => set_live s (hput (rs_live s) k vv)
+  | OWriteHeader st => write_header s st
+  | OWrite p =>
+      let s1 := buffer (write_header s 200) p in
+      if Nat.leb (length (rs_pending s1)) BUFIO then s1 else drain body_ok (commit body_ok false s1)
+  | OFlush => drain body_ok (commit body_ok false (write_header s 200))
+  end.
+Definition rw_finish (body_ok : bool) (s : rwst) : rwst := drain body_ok (commit body_ok true (write_header s 200)).
+Definition rw_run (body_ok : bool) (h : hdr) (ops : list rwop) : rwst := rw_finish body_ok (fold_left (rw_step body_ok) ops (rw_init h)).
+(* response.finalTrailers: every "Trailer:"-prefixed key of the handler's header map, then the
+   values the map holds for the declared keys *)
+Definition cut_prefix (p k : bytes) : option bytes := if has_prefix k p then Some (skipn (length p) k) else None.
+Definition srv_final_trailers (live : hdr) (declared : list bytes) : hdr :=
+  fold_left (fun t k => fold_left (fun t v => hadd t k v) (olist (hlookup live k)) t) declared
+    (fold_left (fun t kv => match cut_prefix TRAILER_PREFIX (fst kv) with Some kk => hput t kk (snd kv) | None => t end) live []).
+Definition rw_trailers (s : rwst) : hdr := if rs_chunking s then srv_final_trailers (rs_live s) (rs_declared s) else [].
+
+(* ---- what ReverseProxy.ServeHTTP does to the ResponseWriter once the headers are copied:
+   Trailer header for announced keys, WriteHeader, Flush when trailers are announced, the copy
+   loop's writes ([mid]: possibly interleaved with Flush calls of the maxLatencyWriter), Flush when
+   unannounced trailers arrived (len(res.Trailer) grew), shallowCopyTrailers ---- *)
+Definition trailers_forced (b : bresp) : bool := negb (forallb (fun kv => mem (fst kv) (b_announced b)) (b_trailers b)).
+Definition resp_ops_with (b : bresp) (mid : list rwop) : list rwop :=
+  let ann := nodup_keys (b_announced b) in
+  (if is_nil ann then [] else [OSetKey K_TRAILER ann]) ++ [OWriteHeader (b_status b)] ++ (if is_nil ann then [] else [OFlush]) ++
+  mid ++
+  (if trailers_forced b then [OFlush] else []) ++
+  map (fun kv => OSetKey (if trailers_forced b then TRAILER_PREFIX ++ fst kv else fst kv) (snd kv)) (final_trailers b).
+Definition resp_ops (b : bresp) (writes : list bytes) : list rwop := resp_ops_with b (map OWrite writes).
+(* Flush calls (maxLatencyWriter's timer) may fall anywhere between the writes *)
+Inductive flush_interleave : list rwop -> list rwop -> Prop :=
+| FI_nil : flush_interleave [] []
+| FI_keep o a b : flush_interleave a b -> flush_interleave (o :: a) (o :: b)
+| FI_flush a b : flush_interleave a b -> flush_interleave a (OFlush :: b).
+Definition payloads (ops : list rwop) : bytes := flat_map (fun o => match o with OWrite p => p | _ => [] end) ops.
+(* the whole response half: header map handed to the ResponseWriter, then the operations above *)
+Definition relay_response (c : pcfg) (e : reqenv) (live pre : hdr) (b : bresp) (body_ok : bool) (bufsz : nat) (r : breader) : rwst :=
+  rw_run body_ok (copy_header pre (mutate_headers e live (c_down c) (c_downre c) (resp_strip (b_hdr b))))
+         (resp_ops b (copy_writes bufsz r)).
+(* the pre-f844a4b sequence (no Flush before unannounced trailers are set): kept to show what the
+   second Flush is for, see C04_Props.C04_trailers_flush_needed *)
+Definition resp_ops_old (b : bresp) (writes : list bytes) : list rwop :=
+  let ann := nodup_keys (b_announced b) in
+  (if is_nil ann then [] else [OSetKey K_TRAILER ann]) ++ [OWriteHeader (b_status b)] ++ (if is_nil ann then [] else [OFlush]) ++
+  map OWrite writes ++
+  map (fun kv => OSetKey (if trailers_forced b then TRAILER_PREFIX ++ fst kv else fst kv) (snd kv)) (final_trailers b).
+
+(* copyHeader, pointwise (independent formulation): the value of header k on the client side given
+   what was there (p) and what the backend response carries (s) *)
+Definition nonempty (vv : list bytes) : oval := if is_nil vv then None else Some vv.
+Definition copy_value (skip : list bytes) (p s : oval) (k : bytes) : oval :=
+  match s with
+  | None => p
+  | Some vv =>
+      match p with
+      | None => nonempty vv
+      | Some pv => if mem k skip then Some pv else if beq k K_SERVER then Some (pv ++ vv) else nonempty vv
+      end
+  end.
+
+Definition no_diff (d : option N) : bool := match d with None => true | Some _ => false end.
+
+(* ---- concurrent requests through one proxy (harness/c04_conc.go) ----
+   Bodies are patterns: byte i of the body with salt s is pat_byte s i (c04BodyOf in the harness).
+   A byte string is observed as: its length, the first offset where it differs from the expected
+   pattern (computed by the harness), and its first and last [window] bytes verbatim. *)
+Definition pat_byte (salt i : N) : N := (i * 7 + i / 251 + salt) mod 253.
+Definition window : N := 48.
+Fixpoint pat_range (salt start : N) (n : nat) : bytes :=
+  match n with
+  | O => []
+  | S m => pat_byte salt start :: pat_range salt (start + 1) m
+  end.
+Definition pat (salt len : N) : bytes := pat_range salt 0 (N.to_nat len).
+Record bobs := { bo_len : N; bo_diff : option N; bo_head : bytes; bo_tail : bytes }.
+Definition desc_of_pat (salt len : N) : bobs :=
+  let h := N.min len window in
+  {| bo_len := len; bo_diff := None; bo_head := pat_range salt 0 (N.to_nat h);
+     bo_tail := pat_range salt (len - h) (N.to_nat h) |}.
+Definition opt_N_eqb (a b : option N) : bool :=
+  match a, b with None, None => true | Some x, Some y => x =? y | _, _ => false end.
+Definition bobs_eqb (a b : bobs) : bool :=
+  (bo_len a =? bo_len b) && opt_N_eqb (bo_diff a) (bo_diff b) && beq (bo_head a) (bo_head b) && beq (bo_tail a) (bo_tail b).
+
+(* newBufferedBody + rewind: the body is read once (ioutil.ReadAll) and every attempt of the retry
+   loop reads the same bytes again from offset 0 *)
+Definition buffered_attempt_bodies (body : bytes) (attempts : nat) : list bytes := repeat body attempts.
+
+Record creq := { cr_salt : N; cr_len : N; cr_chunked : bool; cr_fails : nat; cr_rsalt : N; cr_rlen : N }.
+Record cattempt := { ca_target : nat; ca_body : bobs; ca_cl : Z }.
+Record cobs := { cq_attempts : list cattempt; cq_status : N; cq_ret : N; cq_body : bobs }.
+
+(* model, on descriptors: S fails attempts, each carrying the request's own body; the client gets
+   status 200 and the response's own body *)
+Definition conc_model_ok (r : creq) (o : cobs) : bool :=
+  list_beq bobs_eqb (map ca_body (cq_attempts o)) (repeat (desc_of_pat (cr_salt r) (cr_len r)) (S (cr_fails r))) &&
+  (cq_status o =? 200) && bobs_eqb (cq_body o) (desc_of_pat (cr_rsalt r) (cr_rlen r)).
+
+(* spec, written on the observed bytes: every byte that reached Coq is the byte of this request's
+   own pattern at its offset, lengths are exact, the harness found no differing offset *)
+Fixpoint bytes_are (l : bytes) (salt off : N) : bool :=
+  match l with
+  | [] => true
+  | c :: r => (c =? pat_byte salt off) && bytes_are r salt (off + 1)
+  end.
+Definition own_bytes (o : bobs) (salt len : N) : bool :=
+  let h := N.min len window in
+  (bo_len o =? len) && no_diff (bo_diff o) &&
+  (N.of_nat (length (bo_head o)) =? h) && (N.of_nat (length (bo_tail o)) =? h) &&
+  bytes_are (bo_head o) salt 0 && bytes_are (bo_tail o) salt (len - h).
+Definition conc_spec_fail (nhosts : nat) (r : creq) (o : cobs) : list bytes :=
+  when_not (Nat.eqb (length (cq_attempts o)) (S (cr_fails r))) (tag "<attempts>"%string) ++
+  when_not (forallb (fun a => Nat.ltb (ca_target a) nhosts) (cq_attempts o)) (tag "<target>"%string) ++
+  when_not (forallb (fun a => own_bytes (ca_body a) (cr_salt r) (cr_len r)) (cq_attempts o)) (tag "<request-body>"%string) ++
+  when_not (forallb (fun a => if cr_chunked r then (ca_cl a <=? 0)%Z else (ca_cl a =? Z.of_N (cr_len r))%Z) (cq_attempts o))
+           (tag "<content-length>"%string) ++
+  when_not ((cq_status o =? 200) && (cq_ret o =? 0)) (tag "<status>"%string) ++
+  when_not (own_bytes (cq_body o) (cr_rsalt r) (cr_rlen r)) (tag "<response-body>"%string).
+
+
 (* ================= cases ================= *)
 Record client_obs := { co_status : N; co_hdr : hdr; co_trailers : hdr; co_body : bytes }.
 Record sent_obs := { so_target : nat; so_method : bytes; so_sent : sent; so_read : bool; so_body : bytes; so_cl : Z; so_chunked : bool }.
+
+
+(* ---- recording ResponseWriter (harness): the calls ReverseProxy.ServeHTTP made on it ---- *)
+Inductive oop := XWriteHeader (st : N) | XWrite (n : N) | XFlush.
+Record relay_obs := { ro_trailer_hdr : option (list bytes); (* Trailer header at WriteHeader time *)
+                      ro_ops : list oop;
+                      ro_post : hdr;                         (* keys assigned after WriteHeader *)
+                      ro_body : bobs }.
+Definition oop_eqb (a b : oop) : bool :=
+  match a, b with
+  | XWriteHeader x, XWriteHeader y => x =? y
+  | XWrite x, XWrite y => x =? y
+  | XFlush, XFlush => true
+  | _, _ => false
+  end.
+(* projection of the model's operations: (Trailer header set before WriteHeader, calls, keys set afterwards) *)
+Definition project_ops (ops : list rwop) : option (list bytes) * list oop * hdr :=
+  let '(_, pre, xs, post) :=
+  fold_left (fun (acc : bool * option (list bytes) * list oop * hdr) o =>
+               let '(seen, pre, xs, post) := acc in
+               match o with
+               | OSetKey k vv => if seen then (seen, pre, xs, post ++ [(k, vv)])
+                                 else (seen, (if beq k K_TRAILER then Some vv else pre), xs, post)
+               | OWriteHeader st => (true, pre, xs ++ [XWriteHeader st], post)
+               | OWrite p => (seen, pre, xs ++ [XWrite (N.of_nat (length p))], post)
+               | OFlush => (seen, pre, xs ++ [XFlush], post)
+               end) ops (false, None, [], []) in (pre, xs, post).
+(* the observed calls as operations on the ResponseWriter model, the written bytes cut from [data] *)
+Fixpoint rebuild (xs : list oop) (data : bytes) : list rwop :=
+  match xs with
+  | [] => []
+  | XWriteHeader st :: r => OWriteHeader st :: rebuild r data
+  | XFlush :: r => OFlush :: rebuild r data
+  | XWrite n :: r => OWrite (firstn (N.to_nat n) data) :: rebuild r (skipn (N.to_nat n) data)
+  end.
+Definition write_sizes (xs : list oop) : list N := flat_map (fun x => match x with XWrite n => [n] | _ => [] end) xs.
+Definition sumN (l : list N) : N := fold_left N.add l 0.
+Definition opt_list_set_eqb (a b : option (list bytes)) : bool :=
+  match a, b with None, None => true | Some x, Some y => set_eqb x y | _, _ => false end.
+Definition status_allows_body (method : bytes) (st : N) : bool :=
+  negb (beq method (bs "HEAD"%string)) && (200 <=? st) && negb (st =? 204) && negb (st =? 304).
 
 Inductive case :=
 | CKey (s obs : bytes)
@@ -493,7 +734,12 @@ Inductive case :=
 (* real sockets on both sides: sizes and first differing offsets instead of the bytes *)
 | CWire (method : bytes) (req_len : N) (req_chunked : bool) (up_method : bytes) (up_len : N) (up_diff : option N)
         (up_cl : Z) (b : bresp) (b_len : N) (c_status : N) (c_len : N) (c_diff : option N)
-        (c_hdr : hdr) (c_trailers : hdr).
+        (c_hdr : hdr) (c_trailers : hdr) (c_chunked : bool)
+(* scripted backend body reader (pattern body, per-Read caps, EOF with or after the last bytes) through
+   Proxy.ServeHTTP into a recording ResponseWriter: every call on the writer, in order *)
+| CRelay (b : bresp) (salt len : N) (script : list nat) (eofd : bool) (obs : relay_obs)
+(* concurrent requests through one proxy with retries (see above) *)
+| CConc (nhosts : nat) (reqs : list (creq * cobs)).
 
 Definition opt_nat_eqb (a b : option nat) : bool :=
   match a, b with None, None => true | Some x, Some y => Nat.eqb x y | _, _ => false end.
@@ -564,7 +810,7 @@ Definition spec_attempt_fail (ds : list directive) (ts : list target) (q : reque
   when_not (if chunked then (so_cl so <=? 0)%Z else (so_cl so =? Z.of_nat (length body))%Z) (tag "<content-length>"%string) ++
   spec_sent_fail ds q (nth (so_target so) ts dflt_target) (so_sent so).
 
-Definition no_diff (d : option N) : bool := match d with None => true | Some _ => false end.
+
 
 Definition judge (c : case) : N :=
   match c with
@@ -598,7 +844,7 @@ Definition judge (c : case) : N :=
            is_nil (spec_client_fail ds q pre b {| w_status := co_status oc; w_hdr := co_hdr oc; w_trailers := co_trailers oc |})
          else (ret =? 502)) in
       verdict agree spec
-  | CWire method req_len req_chunked up_method up_len up_diff up_cl b b_len c_status c_len c_diff c_hdr c_trailers =>
+  | CWire method req_len req_chunked up_method up_len up_diff up_cl b b_len c_status c_len c_diff c_hdr c_trailers c_chunked =>
       let spec :=
         beq up_method method && (up_len =? req_len) && no_diff up_diff &&
         (if req_chunked then true else (up_cl =? Z.of_N req_len)%Z) &&
@@ -607,8 +853,34 @@ Definition judge (c : case) : N :=
                            then beq (fst kv) K_CONNECTION || is_nil (olist (hlookup c_hdr (fst kv)))
                            else oval_eqb (hlookup c_hdr (fst kv)) (Some (snd kv))) (b_hdr b) &&
         hdr_eqb_ne c_trailers (b_trailers b) in
-      let m := client_view cfg0 {| e_method := method; e_host := []; e_remote := [] |} [] [] b in
+      let e0 := {| e_method := method; e_host := []; e_remote := [] |} in
+      let m := client_view cfg0 e0 [] [] b in
+      (* framing and trailers of the ResponseWriter model only depend on min(body length, BUFIO+1) *)
+      let s := relay_response cfg0 e0 [] [] b (status_allows_body method (b_status b)) POOL_BUF
+                 {| r_data := repeat 0 (Nat.min (N.to_nat b_len) (S BUFIO)); r_script := []; r_eofd := false |} in
       let agree := (c_status =? v_status m) && hdr_eqb_ne c_trailers (v_trailers m) &&
-                   forallb (fun kv => beq (fst kv) K_CONNECTION || oval_eqb (hlookup c_hdr (fst kv)) (hlookup (v_hdr m) (fst kv))) (b_hdr b) in
+                   forallb (fun kv => beq (fst kv) K_CONNECTION || oval_eqb (hlookup c_hdr (fst kv)) (hlookup (v_hdr m) (fst kv))) (b_hdr b) &&
+                   hdr_eqb_ne c_trailers (rw_trailers s) && (negb (rs_chunking s) || c_chunked) &&
+                   (negb (has_key (rs_snap s) K_CL) || negb c_chunked) in
       verdict agree spec
+  | CRelay b salt len script eofd obs =>
+      let data := pat salt len in
+      let '(mpre, mxs, mpost) := project_ops (resp_ops b (copy_writes POOL_BUF {| r_data := data; r_script := script; r_eofd := eofd |})) in
+      let agree := opt_list_set_eqb (ro_trailer_hdr obs) mpre && list_beq oop_eqb (ro_ops obs) mxs && hdr_eqb (ro_post obs) mpost in
+      (* the property on the implementation's own calls: run the ResponseWriter model on them *)
+      let ops := match ro_trailer_hdr obs with Some vv => [OSetKey K_TRAILER vv] | None => [] end ++
+                 rebuild (ro_ops obs) data ++ map (fun kv => OSetKey (fst kv) (snd kv)) (ro_post obs) in
+      let s := rw_run true (resp_strip (b_hdr b)) ops in
+      let has_tr := negb (is_nil (b_announced b)) || negb (is_nil (b_trailers b)) in
+      let spec :=
+        (sumN (write_sizes (ro_ops obs)) =? len) && own_bytes (ro_body obs) salt len &&
+        forallb (fun n => (0 <? n) && (n <=? N.of_nat POOL_BUF)) (write_sizes (ro_ops obs)) &&
+        beq (rs_out s) data &&
+        (match rs_status s with Some st => st =? b_status b | None => false end) &&
+        hdr_eqb_ne (rw_trailers s) (b_trailers b) && (negb has_tr || rs_chunking s) &&
+        (is_nil (b_announced b) || match hlookup (rs_snap s) K_TRAILER with Some ks => set_eqb ks (b_announced b) | None => false end) in
+      verdict agree spec
+  | CConc nhosts reqs =>
+      verdict (forallb (fun ro => conc_model_ok (fst ro) (snd ro)) reqs)
+              (forallb (fun ro => is_nil (conc_spec_fail nhosts (fst ro) (snd ro))) reqs)
   end.
